@@ -318,6 +318,35 @@ theorem CountInv.recvAllS {base : Nat} {idx0 : List IdxEntry} {c0 : Nat} (me : N
   intro x it hx
   exact CountInv.receiveItemS me m.1 x hx it
 
+/-! ### any numberer: exactly one call per added index -/
+
+theorem calls_receiveItemS {σ : Type} (nm : σ → Int → Nat × σ) (me src : Nat) (x : RankState × (σ × Nat)) (it : Item)
+    (c0 n0 : Nat) (h : c0 ≤ x.2.2 ∧ x.1.idx.length = n0 + (x.2.2 - c0)) :
+    c0 ≤ (receiveItemS (counted nm) me src x it).2.2 ∧
+      (receiveItemS (counted nm) me src x it).1.idx.length = n0 + ((receiveItemS (counted nm) me src x it).2.2 - c0) := by
+  cases hl : it.pairs.lookup me with
+  | none => simp only [receiveItemS, hl]; exact h
+  | some a =>
+    simp only [receiveItemS, hl]
+    split
+    · exact h
+    · simp only [counted]
+      rw [insertIdx_length, h.2]
+      have := h.1
+      constructor <;> omega
+
+theorem calls_recvAllS {σ : Type} (nm : σ → Int → Nat × σ) (me : Nat) (x : RankState × (σ × Nat))
+    (msgs : List (Nat × List Item)) (c0 n0 : Nat) (h : c0 ≤ x.2.2 ∧ x.1.idx.length = n0 + (x.2.2 - c0)) :
+    c0 ≤ (recvAllS (counted nm) me x msgs).2.2 ∧
+      (recvAllS (counted nm) me x msgs).1.idx.length = n0 + ((recvAllS (counted nm) me x msgs).2.2 - c0) := by
+  unfold recvAllS
+  apply foldl_inv (fun (x : RankState × (σ × Nat)) => c0 ≤ x.2.2 ∧ x.1.idx.length = n0 + (x.2.2 - c0)) _ _ msgs x h
+  intro x m hx
+  unfold receiveMsgS
+  apply foldl_inv (fun (x : RankState × (σ × Nat)) => c0 ≤ x.2.2 ∧ x.1.idx.length = n0 + (x.2.2 - c0)) _ _ m.2 x hx
+  intro x it hx
+  exact calls_receiveItemS nm me m.1 x it c0 n0 hx
+
 theorem nbSym_delete {w : World} (hs : NbSym w) (del : Nat → Int → Bool) : NbSym (deleteCopies del w) := by
   intro p q sp sq hp hq
   rw [deleteCopies_getElem?] at hp hq
